@@ -253,9 +253,33 @@ PredEv ==
                  [] E.p = "is_superset" -> IsSuperset(a, b)
     /\ UNCHANGED <<mdl, bld, fsts, auts, strm, ops>>
 
+---------------------------------------------------------------------------
+(* Scale (C01: "thousands to millions of keys"; also C02, C16): one map of  *)
+(* 1.3 million keys, above 16 MiB, so that transition addresses need four   *)
+(* bytes.  Its content is a function of the position that the specification *)
+(* computes itself - no model has to be shipped: the recorder logs the      *)
+(* length, the number of streamed entries and a sample of positions.        *)
+BigKey(i) ==
+    LET a == (i * 1103) % 65521
+        b == (i * 977 + 12345) % 65519
+        c == (i * 733 + 7) % 65497
+    IN  << (i \div 65536) % 256, (i \div 256) % 256, i % 256, a \div 256, a % 256, b \div 256, b % 256,
+           c \div 256, c % 256, (a + 3 * b) % 251, (b + 5 * c) % 241 >>
+BigVal(i) == UFromNat(i * 7 + 1)
+Big ==
+    /\ IsEvent("Big")
+    /\ CASE E.what = "len" -> /\ E.len = E.n /\ E.count = E.n /\ E.empty = (E.n = 0)
+                              /\ E.size > 16777216          \* (else the scenario does not reach 4-byte addresses)
+         [] E.what = "item" -> /\ E.i < E.n /\ E.k = BigKey(E.i) /\ E.v = BigVal(E.i)   \* the i-th entry of the full stream
+         [] E.what = "get" -> /\ E.k = BigKey(E.i) /\ E.res = <<BigVal(E.i)>> /\ E.contains
+         [] E.what = "miss" -> /\ E.k = BigKey(E.i) \o <<0>> /\ E.res = <<>> /\ ~E.contains
+         [] E.what = "getkey" -> /\ E.v = BigVal(E.i) /\ E.res = <<BigKey(E.i)>>
+         [] E.what = "nokey" -> /\ E.v = UFromNat(E.i * 7 + 2) /\ E.res = <<>>          \* between two values
+    /\ UNCHANGED <<mdl, bld, fsts, auts, strm, ops>>
+
 Next == \/ Reset \/ Model \/ BNew \/ BCall \/ BExt \/ BFinish \/ Have \/ Open
         \/ VerifyEv \/ Get \/ ContainsEv \/ IncModel \/ GetKey
-        \/ AutDef \/ SNew \/ SNext \/ ONew \/ ONext \/ PredEv
+        \/ AutDef \/ SNew \/ SNext \/ ONew \/ ONext \/ PredEv \/ Big
 
 Spec == Init /\ [][Next]_vars
 
